@@ -75,12 +75,26 @@ def gen(tier, rng):
     cases += ["decode_nal -", "avcc -", "t35 -", "sei raw:- 3", "bp - -", "sps raw:-", "avcc 0142001effe0010000", "avcc 0142001effe10000016701000168",
               "pps %s raw:-" % ctx, "annexb p,r,r,p", "accum - B"]
     # explicit slice-group ids with a huge declared count and few bits of data
-    for cnt in (0, 1, 1000, 1 << 24, g.UE_MAX):
-        from vlib.bitgen import BitWriter
-        w = BitWriter()
-        w.ue(0).ue(0).b(0).b(0).ue(3).ue(6).ue(cnt)
-        w.raw([1, 0] * 20)
-        cases.append("pps %s raw:%s" % (ctx, hx(w.bytes())))
+    # (against the small SPS and against the huge ones: a count must not be trusted because the SPS allows it)
+    from vlib.bitgen import BitWriter
+    for cx, sid in ((ctx, 0), (ctxh, 1), (ctxh, 2)):
+        for cnt in (0, 1, 1000, 1 << 24, (1 << 24) - 1, (1 << 26) + 1, g.UE_MAX):
+            for ngm1 in (1, 3, 7):
+                w = BitWriter()
+                w.ue(0).ue(sid).b(0).b(0).ue(ngm1).ue(6).ue(cnt)
+                w.raw([1, 0] * 20)
+                cases.append("pps %s raw:%s" % (cx, hx(w.bytes())))
+    # slice-group ids backed by data, doubling: time must stay linear in the input
+    for e in range(8, (16 if tier == "quick" else 18)):
+        nbytes = 1 << e
+        for ngm1, bits in ((1, 1), (3, 2), (7, 3)):
+            cnt = nbytes * 8 // bits
+            w = BitWriter()
+            w.ue(0).ue(0).b(0).b(0).ue(ngm1).ue(6).ue(cnt - 1)
+            w.raw([0] * (cnt * bits))
+            w.ue(0).ue(0).b(0).u(2, 0).se(0).se(0).se(0).b(0).b(0).b(0)
+            w.trailing()
+            cases.append(("!" if e > 11 else "") + "pps %s raw:%s" % (ctx, hx(w.bytes())))
     # 4. size doubling: time and allocation must stay linear
     top = 18 if tier == "quick" else 20
     for e in range(10, top + 1):
